@@ -232,6 +232,57 @@ func corpus() []core.Case {
 		}
 		cs = append(cs, mixCase("corpus-hexbytes", ops...))
 	}
+	// base64, three-way with the Lean codec model: every string of length ≤ 4 over an alphabet
+	// with two letters, '=', newline, '-' (URL only), '+' (std only); a bad character at every
+	// position of a 12-character valid string (the 8- and 4-character fast paths fall back to
+	// decodeQuantum); every input length 0..9 with the bytes that hit sextets 62/63
+	{
+		var ops []string
+		const alpha = "AQ=\n-+"
+		var rec func(cur []byte)
+		rec = func(cur []byte) {
+			for _, n := range b64Names {
+				ops = append(ops, b64dLine(n, cur))
+			}
+			if len(cur) == 4 {
+				return
+			}
+			for i := 0; i < len(alpha); i++ {
+				rec(append(append([]byte{}, cur...), alpha[i]))
+			}
+		}
+		rec(nil)
+		for _, n := range b64Names {
+			valid := []byte(b64Encs[n].EncodeToString([]byte{0xfb, 0xff, 0xbf, 0x00, 0x10, 0x83, 0xfb, 0xef, 0xbe}))
+			for pos := 0; pos <= len(valid); pos++ {
+				for _, bad := range []byte{'=', '\n', '\r', '-', '+', '_', '/', '!', 0, 0x80, 0xff} {
+					if pos < len(valid) {
+						b := clone(valid)
+						b[pos] = bad
+						ops = append(ops, b64dLine(n, b))
+					}
+					b := append(append(clone(valid[:pos]), bad), valid[pos:]...)
+					ops = append(ops, b64dLine(n, b))
+				}
+				ops = append(ops, b64dLine(n, valid[:pos]))
+			}
+			for l := 0; l <= 9; l++ {
+				in := make([]byte, l)
+				for i := range in {
+					in[i] = []byte{0xfb, 0xff, 0xbf, 0x3e, 0x3f, 0x00}[(i+l)%6]
+				}
+				ops = append(ops, b64eLine(n, in), b64dLine(n, []byte(b64Encs[n].EncodeToString(in))))
+			}
+		}
+		const chunk = 4000
+		for i := 0; i < len(ops); i += chunk {
+			j := i + chunk
+			if j > len(ops) {
+				j = len(ops)
+			}
+			cs = append(cs, mixCase("corpus-base64", ops[i:j]...))
+		}
+	}
 	// IPv4
 	{
 		var ops []string
